@@ -140,6 +140,33 @@ def main(ctx: Ctx) -> int:
             traces.append({"tid": len(traces) + 1, "model": model, "ty": ty, "a": c05_laws.pair(a_val),
                            "c": {"ms": ms, "eb": "eb_" + alias, "ebv": repr(float(ebv)), "yld": repr(float(yld)), "chg": chg, "g": grp, "s": sym, "two": tw},
                            "obs": obs, "line": line, "fmt": fmt, "fmt_refuses": fmt == "uclchem" and ty in (204, 310), "kind": "law", "ev": [], "table": 0})
+            # the same law through the NETWORK's own grain objects, after the network's dust model was switched from another one
+            if ci % 3 == 0 and model != "base":
+                other = {"hh93": "rr07x", "hh93i": "hh93", "rr07": "hh93", "rr07x": "hh93i"}[model]
+                obs2 = {"refused": False, "valid": True, "tree": ["none"], "expr": "", "err": "", "eb_ok": True}
+                try:
+                    Species.reset()
+                    net2 = Network(filelist=str(f), fileformats=fmt, grain_model=other)
+                    try:
+                        _ = [g.model for g in net2.grains]       # (any code generation reads them)
+                    except Exception:   # noqa
+                        pass
+                    net2.grain_model = model
+                    reac2 = net2.reaction_list[0]
+                    g2 = {g.group: g for g in net2.grains}.get(reac2.grain_group or 0)
+                    if g2 is None:
+                        continue       # a one-reaction network without any grain / ice species has no grain object of its own: nothing to compare
+                    expr2 = reac2.rateexpr(g2)
+                    obs2["expr"] = expr2
+                    try:
+                        obs2["tree"] = cexpr.canon(cexpr.parse(expr2))
+                    except cexpr.ParseError as e:
+                        obs2["valid"], obs2["err"] = False, str(e)
+                except (NotImplementedError, ValueError, RuntimeError, AttributeError, KeyError) as e:
+                    obs2["refused"], obs2["err"] = True, f"{type(e).__name__}: {str(e)[:80]}"
+                t2 = dict(traces[-1])
+                t2.update({"tid": len(traces) + 1, "obs": obs2, "line": line + f"   [network switched from {other}]"})
+                traces.append(t2)
     # binding-energy lookup order on ONE species object across reads and updates (values in K, integers)
     for name in ("#CO", "#H2O", "#CH4"):
         for seq in (["read", ("user", 1300), "read", ("explicit", 855), "read", ("user", 1400), "read"], ["read", "read", ("user", 999), "read", "read"],
